@@ -5,7 +5,8 @@ INTS_SMALL = [0, 1, -1, 2, 3, 4, 5, 10]
 INTS_BIG = [2 ** 53 - 1, 2 ** 53, 2 ** 53 + 1, -(2 ** 53) - 1, 10 ** 20, -(10 ** 20), 10 ** 400, -(10 ** 400),
             2 ** 1024, 10 ** 3999]
 FLOATS = [0.0, -0.0, 0.5, 1.0, 1.5, 2.0, -1.0, 2.5, 0.25, 0.1, 3.0, float(2 ** 53), 1e308, -1e308, 5e-324,
-          1e-7, 4.0, 1e20, 0.75]
+          1e-7, 4.0, 1e20, 0.75, 1e-17, 0.9999999999999999, 1.0000000000000002, -1e-300, 2.9999999999999996,
+          4503599627370496.5, 1e22]
 
 
 def number(rng, hostile=0.15):
@@ -74,7 +75,7 @@ TYPE_REPS = {
     "null": [None],
     "boolean": [True, False],
     "integer": [0, 1, 2, -1, 3, 10 ** 20],
-    "number": [0.5, 1.0, 2.0, 1.5, -0.0, 1e308],
+    "number": [0.5, 1.0, 2.0, 1.5, -0.0, 1e308, 5e-324, 1e-17, 0.9999999999999999, 1.0000000000000002, -1e-300],
     "string": ["", "a", "ab", "foo", "b1", "\U0001d11e"],
     "array": [[], [1], [1, 2], ["a", "b", "a"], [1, 1], [[], {}], [1, "a", None], [True, 1]],
     "object": [{}, {"a": 1}, {"a": 1, "b": 2}, {"foo": "a", "ab": []}, {"": None}, {"b1": 1, "a": "a", "b": 2.0}],
